@@ -170,7 +170,7 @@ def index_menu(n: int) -> list[int]:
 
 
 def slice_menu(n: int, full: bool) -> list[list]:
-    ends = [None, 0, 1, -1, n, n + 1, -n - 1] if full else [None, 0, 1, -1, n + 1]
+    ends = [None, 0, 1, -1, n, n + 1, -n - 1] if full else [None, 0, 1, -1, n + 1, -n - 1]
     ends = list(dict.fromkeys(ends))
     steps = [None, 2, -1] if full else [None, 2, -1]
     return [[a, b, s] for a in ends for b in ends for s in steps]
